@@ -12,6 +12,8 @@ from __future__ import annotations
 
 import random
 
+import time
+
 import numpy as np
 
 from harness import graphs, programs
@@ -216,6 +218,7 @@ def targeted_programs(rng):
 
 def run(ctx, replay=None):
     rng = ctx.rng
+    t_run = time.time()  # budgets are relative to the start of the search, not to the Lean build/audit
     ctx.rule = (
         "seeded random array programs (harness.programs incl. setitem, astype, identity map_blocks, split-rechunks whose "
         "pieces are views, sliding-window reductions, cumsum) with 1-3 roots executed as ONE merged graph, x optimize-graph "
@@ -241,7 +244,7 @@ def run(ctx, replay=None):
     n = ctx.scale(400, 6000)
     budget = ctx.scale(45, 520)
     for it in range(n):
-        if ctx.elapsed() > budget:
+        if time.time() - t_run > budget:
             ctx.notes["stopped_early_at"] = it
             break
         if it % 4 == 3:
